@@ -144,7 +144,7 @@ theorem shStep_op_plain (s : Sh) (o : Op) (next : Option Tok)
 theorem popFaster_keep (o : Op) (prev : Option Tok) (out : List Expr) (n : OpNode) (ops : List OpNode)
     (hk : keeps o n.op = true) (hp : prefixOk o = true) :
     popFaster o prev out (n :: ops) = .ok (out, n :: ops) := by
-  obtain ⟨_, hc, hq, _⟩ := ty_facts_prefixOk o hp
+  obtain ⟨_, hc, hq, _⟩ := ty_facts_prefixOk o (by simp [preOk, hp])
   rw [popFaster_cons]
   by_cases h1 : has n.op.ty T.pairStart = true
   · simp [h1]
@@ -248,7 +248,7 @@ theorem step_prefix (s s' : Sh) (σ σ' : St) (o : Op) (next : Option Tok) (cons
       simp only [hpop, Except.ok.injEq] at hst
       subst hsh; subst hst
       let fr := Frame.pre { op := o' }
-      have hfrok : fr.ok := hpo
+      have hfrok : fr.ok := by show preOk o' = true; simp [preOk, hpo]
       refine ⟨{ cur with pre := fr :: cur.pre }, stk, ?_⟩
       have hfs' : ({ cur with pre := fr :: cur.pre } : Lvl).fs = fr :: cur.fs := rfl
       constructor
@@ -984,5 +984,180 @@ theorem close_core (s : Sh) (σ : St) (consumed : List Tok) (cur par : Lvl) (stk
           | vtype m k => exact absurd ⟨hp, Or.inr ⟨m, k, by rw [hvtop, hv]⟩⟩ hcont
           | _ => rfl
         · exact hvt hp
+
+end Occa.Expr
+
+namespace Occa.Expr
+open Occa.Gen
+
+theorem Levels.inv_push {cur : Lvl} {stk : List Lvl} {sc : Scope} {stack : List Scope} {sh : ShScope} {shs : List ShScope}
+    (h : Levels cur stk sc stack (sh :: shs)) :
+    ∃ par stk' psc pstack n, stk = par :: stk' ∧ stack = psc :: pstack ∧ cur.Rep sc ∧ cur.Good ∧ cur.base = some n ∧
+      PairOk par n sh sc.before ∧ Levels par stk' psc pstack shs := by
+  cases h with
+  | push _ par stk' _ psc pstack _ _ n h1 h2 h3 h4 h5 => exact ⟨par, stk', psc, pstack, n, rfl, rfl, h1, h2, h3, h4, h5⟩
+
+theorem allToks_pop (cur par : Lvl) (stk : List Lvl) : allToks cur (par :: stk) = allToks par stk ++ cur.toks := by
+  simp [allToks, List.flatMap_append]
+
+theorem parenCast_prefixOk : preOk .parenCast = true := by decide
+theorem parenCast_cast : has Op.parenCast.ty T.parenCast = true := by decide
+theorem pairEnd_of_eq : has Op.parenthesesEnd.ty T.pairEnd = true ∧ has Op.braceEnd.ty T.pairEnd = true ∧
+    has Op.bracketEnd.ty T.pairEnd = true := by decide
+theorem paren_kinds : has Op.parenthesesEnd.ty T.parentheses = true ∧ has Op.parenthesesEnd.ty T.braces = false ∧
+    has Op.braceEnd.ty T.parentheses = false ∧ has Op.braceEnd.ty T.braces = true ∧
+    has Op.bracketEnd.ty T.parentheses = false ∧ has Op.bracketEnd.ty T.braces = false ∧
+    has Op.bracketEnd.ty T.brackets = true ∧ has Op.parenthesesEnd.ty T.brackets = false ∧
+    has Op.parenthesesStart.ty T.braces = false ∧ has Op.parenthesesStart.ty T.brackets = false ∧
+    has Op.braceStart.ty T.parentheses = false ∧ has Op.braceStart.ty T.brackets = false ∧
+    has Op.bracketStart.ty T.parentheses = false ∧ has Op.bracketStart.ty T.braces = false ∧
+    has Op.cudaCallStart.ty T.parentheses = false ∧ has Op.cudaCallStart.ty T.braces = false ∧
+    has Op.cudaCallStart.ty T.brackets = false := by decide
+
+/-- what `attachPair` does with the `pairNode`, and the description of the enclosing scope afterwards -/
+theorem attach_core (par : Lvl) (parent : Scope) (n : OpNode) (o : Op) (sc : ShScope) (before : Option Tok)
+    (v' : Expr) (isTy : Bool) (hpar : par.Rep parent) (hparg : par.Good) (hpair : PairOk par n sc before)
+    (hopn : has n.op.ty T.pairStart = true) (hm : (o.ty == shl1 n.op.ty) = true)
+    (hcl : colonLu v' = false) (hty : isTypeNode v' = isTy) :
+    ∃ (out' : List Expr) (ops' : List OpNode) (par' : Lvl), attachPair before (.pair o v' :: parent.out) parent.ops =
+        .ok (out', ops', sc.inE && has o.ty T.parentheses && isTy) ∧
+      par'.Rep { parent with out := out', ops := ops' } ∧ par'.Good ∧ par'.base = par.base ∧
+      par'.toks = par.toks ++ (Tok.op n.op :: printToks v') ++ [Tok.op o] ∧
+      questCount par'.fs = questCount par.fs ∧
+      (if sc.inE && has o.ty T.parentheses && isTy then
+         par'.top = none ∧ ∃ m, par'.fs = Frame.pre m :: par.fs ∧ m.op = .parenCast
+       else par'.top.isSome = true ∧ par'.fs = par.fs ∧ (∀ m k, par'.top ≠ some (Expr.vtype m k))) := by
+  obtain ⟨hcloser, hkind, ⟨hptop, hphead⟩, hbefore, _⟩ := hpair
+  have hmatch := pair_match n.op o hopn hm
+  obtain ⟨k1, k2, k3, k4, k5, k6, k7, k8, k9, k10, k11, k12, k13, k14, k15, k16, k17⟩ := paren_kinds
+  have hparout : parent.out = scopeOut par.fs par.top := hpar.1
+  by_cases hE : sc.inE = true
+  · -- operand position: parentheses, cast or tuple
+    simp only [hE, if_true] at hkind hptop hbefore
+    have htrans : attachPair before (.pair o v' :: parent.out) parent.ops =
+        transformLastPair (.pair o v' :: parent.out) parent.ops := by
+      unfold attachPair
+      split
+      · rfl
+      · rcases hbefore with hb | ⟨b, hb, hbe⟩
+        · rw [hb]
+        · rw [hb]; simp [hbe]
+    rcases hmatch with ⟨ha, hb⟩ | ⟨ha, hb⟩ | ⟨ha, hb⟩ | ⟨ha, hb⟩
+    · -- ( )
+      subst hb
+      cases hv : isTy
+      · -- parentheses
+        have hnot : ∀ m k, v' ≠ .vtype m k := by
+          intro m k h; rw [h, hv] at hty; simp [isTypeNode] at hty
+        refine ⟨.paren v' :: parent.out, parent.ops, { par with top := some (.paren v') }, ?_, ?_, ?_, rfl, ?_, rfl, ?_⟩
+        · rw [htrans]; simp only [transformLastPair, k1, k2, Bool.or_false, Bool.not_true, Bool.false_eq_true, if_false, if_true]
+          cases v' <;> simp_all
+        · exact ⟨by show _ = scopeOut par.fs (some _); rw [scopeOut_some, hparout, hptop], hpar.2⟩
+        · exact ⟨hparg.frames, hparg.noOpn, fun e he => by simp at he; subst he; rfl⟩
+        · show scopeToks par.fs (some (.paren v')) = scopeToks par.fs par.top ++ _ ++ _
+          rw [scopeToks_some, hptop, ha]; simp [printToks, scopeToks, topToks]
+        · simp only [hE, k1, Bool.and_false, Bool.false_eq_true, if_false]
+          exact ⟨rfl, rfl, fun m k h => by simp at h⟩
+      · -- cast
+        obtain ⟨m, k, hvk⟩ : ∃ m k, v' = .vtype m k := by
+          cases v' <;> simp [isTypeNode, hv] at hty
+          exact ⟨_, _, rfl⟩
+        subst hvk
+        let cn : OpNode := { op := .parenCast, castName := m, castPtrs := k }
+        refine ⟨parent.out, cn :: parent.ops, { par with pre := Frame.pre cn :: par.pre }, ?_, ?_, ?_, rfl, ?_, ?_, ?_⟩
+        · rw [htrans]; simp [transformLastPair, k1, hE, cn]
+        · exact ⟨by show _ = scopeOut (Frame.pre cn :: par.fs) par.top; rw [hparout]; simp [scopeOut, Frame.outs],
+                 by show _ = scopeOps (Frame.pre cn :: par.fs); rw [hpar.2]; rfl⟩
+        · refine ⟨⟨?_, ?_, ?_⟩, ?_, hparg.topOk⟩
+          · intro f hf; simp [Lvl.fs] at hf; rcases hf with rfl | hf
+            · exact parenCast_prefixOk
+            · exact hparg.frames.ok f (by simpa [Lvl.fs] using hf)
+          · intro f hf
+            have hf' : f ∈ par.fs := by simpa [Lvl.fs] using hf
+            cases hcf : par.fs with
+            | nil => rw [hcf] at hf'; simp at hf'
+            | cons g gs =>
+              rw [hcf] at hf'; simp at hf'; rcases hf' with rfl | hf'
+              · exact hphead f (by rw [hcf]; rfl)
+              · exact hparg.frames.post f (by rw [hcf]; simpa using hf')
+          · intro f hf e he; simp [Lvl.fs] at hf; rcases hf with rfl | hf
+            · simp [Frame.outs] at he
+            · exact hparg.frames.nocolon f (by simpa [Lvl.fs] using hf) e he
+          · intro f hf; simp at hf; rcases hf with rfl | hf
+            · rfl
+            · exact hparg.noOpn f hf
+        · show scopeToks (Frame.pre cn :: par.fs) par.top = scopeToks par.fs par.top ++ _ ++ _
+          rw [hptop, scopeToks_consFrame_none, ha]
+          simp [Frame.toks, pfxToks, cn, parenCast_cast, printToks]
+        · show questCount (Frame.pre cn :: par.fs) = questCount par.fs
+          exact questCount_reducible _ _ rfl
+        · simp only [hE, k1, Bool.and_self, if_true]
+          exact ⟨hptop, cn, rfl, rfl⟩
+    · -- { }
+      subst hb
+      refine ⟨.tuple v' :: parent.out, parent.ops, { par with top := some (.tuple v') }, ?_, ?_, ?_, rfl, ?_, rfl, ?_⟩
+      · rw [htrans]; simp [transformLastPair, k3, k4, hE]
+      · exact ⟨by show _ = scopeOut par.fs (some _); rw [scopeOut_some, hparout, hptop], hpar.2⟩
+      · exact ⟨hparg.frames, hparg.noOpn, fun e he => by simp at he; subst he; rfl⟩
+      · show scopeToks par.fs (some (.tuple v')) = scopeToks par.fs par.top ++ _ ++ _
+        rw [scopeToks_some, hptop, ha]; simp [printToks, scopeToks, topToks]
+      · simp only [hE, k3, Bool.and_false, Bool.false_and, Bool.false_eq_true, if_false]
+        exact ⟨rfl, rfl, fun m k h => by simp at h⟩
+    · rw [ha] at hkind; simp [k13, k14] at hkind
+    · rw [ha] at hkind; simp [k15, k16] at hkind
+  · -- after an operand: call or subscript
+    have hE' : sc.inE = false := by simpa using hE
+    simp only [hE', Bool.false_eq_true, if_false] at hkind hptop hbefore
+    obtain ⟨f, hf⟩ := Option.isSome_iff_exists.mp hptop
+    have hout2 : parent.out = f :: scopeOut par.fs none := by rw [hparout, hf, scopeOut_some]
+    have hatt : ∀ r, (has o.ty T.parentheses = true ∧ r = Expr.call f v') ∨
+                      (has o.ty T.parentheses = false ∧ has o.ty T.brackets = true ∧ r = Expr.sub f v') →
+        attachPair before (.pair o v' :: parent.out) parent.ops = .ok (r :: scopeOut par.fs none, parent.ops, false) := by
+      intro r hr
+      unfold attachPair
+      rw [hout2]
+      simp only [List.length_cons]
+      have hlen : ¬ ((scopeOut par.fs none).length + 1 + 1 < 2) := by omega
+      simp only [hlen, if_false]
+      have hgo : attachPair.attach (.pair o v' :: f :: scopeOut par.fs none) parent.ops =
+          .ok (r :: scopeOut par.fs none, parent.ops, false) := by
+        rcases hr with ⟨h1, rfl⟩ | ⟨h1, h2, rfl⟩
+        · simp [attachPair.attach, h1]
+        · simp [attachPair.attach, h1, h2]
+      rcases hbefore with ⟨t, ht, hno⟩ | ⟨b, hb, hbe⟩
+      · rw [ht]
+        cases t with
+        | op x => exact absurd rfl (hno x)
+        | _ => exact hgo
+      · rw [hb]; simp [hbe]; exact hgo
+    have fin : ∀ r, colonLu r = false → (∀ m k, r ≠ .vtype m k) →
+        printToks r = printToks f ++ (Tok.op n.op :: printToks v') ++ [Tok.op o] →
+        attachPair before (.pair o v' :: parent.out) parent.ops = .ok (r :: scopeOut par.fs none, parent.ops, false) →
+        ∃ (out' : List Expr) (ops' : List OpNode) (par' : Lvl), attachPair before (.pair o v' :: parent.out) parent.ops =
+            .ok (out', ops', sc.inE && has o.ty T.parentheses && isTy) ∧
+          par'.Rep { parent with out := out', ops := ops' } ∧ par'.Good ∧ par'.base = par.base ∧
+          par'.toks = par.toks ++ (Tok.op n.op :: printToks v') ++ [Tok.op o] ∧
+          questCount par'.fs = questCount par.fs ∧
+          (if sc.inE && has o.ty T.parentheses && isTy then
+             par'.top = none ∧ ∃ m, par'.fs = Frame.pre m :: par.fs ∧ m.op = .parenCast
+           else par'.top.isSome = true ∧ par'.fs = par.fs ∧ (∀ m k, par'.top ≠ some (Expr.vtype m k))) := by
+      intro r hr1 hr2 hr3 hr4
+      refine ⟨r :: scopeOut par.fs none, parent.ops, { par with top := some r }, ?_, ?_, ?_, rfl, ?_, rfl, ?_⟩
+      · rw [hr4]; simp [hE']
+      · exact ⟨by show _ = scopeOut par.fs (some r); rw [scopeOut_some], hpar.2⟩
+      · exact ⟨hparg.frames, hparg.noOpn, fun e he => by simp at he; subst he; exact hr1⟩
+      · show scopeToks par.fs (some r) = scopeToks par.fs par.top ++ _ ++ _
+        rw [scopeToks_some, hf, scopeToks_some, hr3]; simp [List.append_assoc]
+      · simp only [hE', Bool.false_and, Bool.false_eq_true, if_false]
+        exact ⟨rfl, rfl, fun m k h => by simp at h; exact hr2 m k h⟩
+    rcases hmatch with ⟨ha, hb⟩ | ⟨ha, hb⟩ | ⟨ha, hb⟩ | ⟨ha, hb⟩
+    · subst hb
+      exact fin (.call f v') rfl (fun _ _ h => by simp at h) (by rw [ha]; simp [printToks])
+        (hatt _ (Or.inl ⟨k1, rfl⟩))
+    · rw [ha] at hkind; simp [k11, k12] at hkind
+    · subst hb
+      exact fin (.sub f v') rfl (fun _ _ h => by simp at h) (by rw [ha]; simp [printToks])
+        (hatt _ (Or.inr ⟨k5, k7, rfl⟩))
+    · rw [ha] at hkind; simp [k15, k17] at hkind
 
 end Occa.Expr
